@@ -179,11 +179,60 @@ def t_atom(ex):
         ex.oblige(f"{P}.ensures.equal_atoms_agree_on_{n}", Implies(eq, as_bool(r)))
 
 
+def t_caching_repo(ex):
+    """the resolver's query cache: an answer is reused only for a restriction equal to the one it was computed for"""
+    from pyvc.models import Model, ModelHost
+    from pyvc.sym import KRef, SObj, SBool, SInt, Implies, Not, And, OutOfSubset
+    from pyvc import theory
+    import pkgcore.repository.misc as RM
+    P = "C07.caching_repo.match"
+    R_ = KRef("CachedRestriction")
+    r1, r2 = R_.fresh("first_query"), R_.fresh("second_query")
+    calls = []
+    strategy = object()
+
+    class Answer(ModelHost):
+        def __init__(self, q):
+            self.q = q
+
+    class Db(ModelHost):
+        def getattr(self, it_, name):
+            if name == "itermatch":
+                def itermatch(it__, restrict, sorter=None, **k):
+                    calls.append((restrict, sorter))
+                    return Answer(restrict)
+                return Model(itermatch, "db.itermatch")
+            raise OutOfSubset(f"db.{name}")
+    H = theory.ufun("restriction_hash", R_.sort, z3.IntSort())
+    it = Interp(ex, label=P, models={RM.caching_iter: lambda it_, x, *a: x})
+    it.hash_model = lambda it_, v: SInt(H(v.t)) if hasattr(v, "t") else hash(v)
+    repo = SObj(RM.caching_repo, {"__db__": Db(), "__strategy__": strategy, "__cache__": {}})
+    fn = it.target("src/pkgcore/repository/misc.py", "caching_repo.match")
+    o1 = call(it, fn, repo, r1)
+    o2 = call(it, fn, repo, r2)
+    ex.oblige(f"{P}.raises.nothing", not (o1.raised or o2.raised), kind="exceptional-postcondition")
+    if o1.raised or o2.raised:
+        return
+    a1, a2 = o1.value, o2.value
+    ex.oblige(f"{P}.ensures.first_answer_is_the_database_query_for_that_restriction_with_the_forced_sorter",
+              isinstance(a1, Answer) and a1.q is r1 and len(calls) >= 1 and calls[0][0] is r1 and calls[0][1] is strategy)
+    ok = isinstance(a2, Answer)
+    ex.oblige(f"{P}.ensures.second_answer_is_a_database_answer", ok)
+    if ok:
+        ex.oblige(f"{P}.ensures.an_answer_is_reused_only_for_an_equal_restriction", SBool(a2.q.t == r2.t))
+        if len(calls) == 1:
+            ex.cover("cache hit")
+        else:
+            ex.cover("cache miss")
+            ex.oblige(f"{P}.ensures.a_miss_queries_the_database_for_the_new_restriction_with_the_forced_sorter", calls[1][0] is r2 and calls[1][1] is strategy)
+
+
 def tasks():
     return [
         Task("C07.atom", t_atom, [("src/pkgcore/ebuild/atom.py", "atom.__init__")]),
         Task("C07._VersionMatch", t_versionmatch, [(F_RST, f"_VersionMatch.{n}") for n in ("__eq__", "_convert_ops", "__hash__", "match")]),
         Task("C07.values", t_values, [(F_VAL, "StrExactMatch.match"), (F_VAL, "StrGlobMatch.match"), (F_VAL, "ContainmentMatch.match")]),
+        Task("C07.caching_repo", t_caching_repo, [("src/pkgcore/repository/misc.py", "caching_repo.match")]),
         Task("C07.hash_lists", t_hash_attr_lists, [(F_PKG, "PackageRestriction.__hash__"), (F_PKG, "Conditional.__hash__"), (F_BOOL, "base.__hash__")]),
     ]
 
